@@ -167,6 +167,7 @@ func runNative(pkgDir string, pkgName string, harnessFuncs []string, cases []rep
 			cmd.Process.Kill()
 		}
 		logAll.Write(outb.Bytes())
+		outStr := outb.String() // (the scanner below drains outb)
 		got := 0
 		sawTimeout := false
 		sc := bufio.NewScanner(&outb)
@@ -197,7 +198,11 @@ func runNative(pkgDir string, pkgName string, harnessFuncs []string, cases []rep
 				if strings.Contains(logAll.String(), "[build failed]") || strings.Contains(logAll.String(), "[setup failed]") {
 					return res, logAll.String(), fmt.Errorf("native build failed")
 				}
-				res[c.ID] = replayOutcome{ID: c.ID, Outcome: "crash", Msg: lastLines(outb.String(), 12)}
+				msg := lastLines(outStr, 12)
+				if strings.Contains(outStr, "fatal error: stack overflow") {
+					msg = "fatal error: stack overflow\n" + msg
+				}
+				res[c.ID] = replayOutcome{ID: c.ID, Outcome: "crash", Msg: msg}
 				continue
 			}
 			rest = append(rest, c)
